@@ -19,7 +19,11 @@ Casts == {
    senders |-> {"multi1", "multi2", "appr2", "exec2", "stranger"}],
   [name |-> "single", seller |-> "multi1", buyer |-> "multi1", approvers |-> <<"multi1">>, approvers2 |-> <<"multi1", "appr2">>,
    executors |-> <<"multi1">>, executors2 |-> <<"exec2">>, askfee |-> "multi1", bidfee |-> "multi1",
-   senders |-> {"multi1", "appr2", "exec2", "stranger"}] }
+   senders |-> {"multi1", "appr2", "exec2", "stranger"}],
+  \* no approver configured at all (instantiation allows it): nobody may approve
+  [name |-> "noappr", seller |-> "seller1", buyer |-> "buyer1", approvers |-> <<>>, approvers2 |-> <<"appr2">>,
+   executors |-> <<"exec1">>, executors2 |-> <<"exec1", "exec2">>, askfee |-> "askfee1", bidfee |-> "bidfee1",
+   senders |-> {"seller1", "buyer1", "appr1", "appr2", "exec1", "stranger"}] }
 
 CfgOf(c) == InstMsg("ats", "base", <<"cv1">>, <<"q1">>, c.approvers, c.executors,
                     FeeInfo(c.askfee, R(5000)), FeeInfo(c.bidfee, R(2500)), <<>>, <<>>, 0, 1)
